@@ -87,3 +87,21 @@ impl<T> IterChain2<T> for Vec<T> {
 pub trait ParIterExt<T> { spec fn pitems(&self) -> Seq<T>; fn par_iter<'a>(&'a self) -> (r: Vec<&'a T>) ensures refs_of(r@, self.pitems()); }
 impl<T> ParIterExt<T> for Vec<T> { open spec fn pitems(&self) -> Seq<T> { self@ } #[verifier::external_body] fn par_iter<'a>(&'a self) -> (r: Vec<&'a T>) { unimplemented!() } }
 impl<T> ParIterExt<T> for [T] { open spec fn pitems(&self) -> Seq<T> { self@ } #[verifier::external_body] fn par_iter<'a>(&'a self) -> (r: Vec<&'a T>) { unimplemented!() } }
+/// std `slice::iter()` at the root of an adapter chain (rule R9): the Vec of element references it yields
+#[verifier::external_body]
+pub fn vec_iter<'a, T>(v: &'a Vec<T>) -> (r: Vec<&'a T>) ensures refs_of(r@, v@) { unimplemented!() }
+#[verifier::external_body]
+pub fn slice_iter<'a, T>(v: &'a [T]) -> (r: Vec<&'a T>) ensures refs_of(r@, v@) { unimplemented!() }
+pub open spec fn fold_decided<T, B, F: Fn(B, T) -> B>(f: F, items: Seq<T>, init: B, accs: Seq<B>) -> bool {
+    accs.len() == items.len() + 1 && accs[0] == init && forall|i: int| 0 <= i < items.len() ==> call_ensures(f, (accs[i], items[i]), #[trigger] accs[i + 1])
+}
+pub trait IterFold<T>: Sized {
+    spec fn fitems(&self) -> Seq<T>;
+    fn fold<B, F: Fn(B, T) -> B>(self, init: B, f: F) -> (r: B)
+        requires forall|b: B, i: int| 0 <= i < self.fitems().len() ==> #[trigger] call_requires(f, (b, self.fitems()[i])),
+        ensures exists|accs: Seq<B>| #[trigger] fold_decided(f, self.fitems(), init, accs) && r == accs[self.fitems().len() as int];
+}
+impl<T> IterFold<T> for Vec<T> {
+    open spec fn fitems(&self) -> Seq<T> { self@ }
+    #[verifier::external_body] fn fold<B, F: Fn(B, T) -> B>(self, init: B, f: F) -> (r: B) { unimplemented!() }
+}
